@@ -898,7 +898,7 @@ func check(r *vk.Run, c Case) *vk.Fail {
 			return template.HTML("[" + s + "]"), nil
 		}
 		rd["hx"] = methRec{rec: &recorded}
-	rd["reca"] = func(label string, help plush.HelperContext) (template.HTML, error) { // an argument before the block
+		rd["reca"] = func(label string, help plush.HelperContext) (template.HTML, error) { // an argument before the block
 			s, err := help.Block()
 			if err != nil {
 				return "", err
@@ -1317,11 +1317,7 @@ func (g *G) item(sc *scope) []Item {
 			if len(keys) > 0 {
 				it.Data = g.data(*sc, keys, 2, "bd")
 			}
-			for i := range it.Data {
-				if it.Data[i].K == "s0" && it.Data[i].Nil {
-					it.Data[i] = KV{K: "s0", Var: "n0"}
-				}
-			}
+			it.Data = g.noNilFor(it.Data, *sc)
 			in.inBlock = true
 			if !g.textual {
 				in.guarded = with(sc.guarded, without([]string{"c0", "c1"}, sc.hidden)...)
@@ -1407,11 +1403,7 @@ func (g *G) cof(sc *scope, want string) Item {
 			it.Data = append(it.Data, kv)
 		}
 	}
-	for i := range it.Data {
-		if it.Data[i].K == "s0" && it.Data[i].Nil { // stored blocks read s0 unguarded
-			it.Data[i] = KV{K: "s0", Var: "n0"}
-		}
-	}
+	it.Data = g.noNilFor(it.Data, *sc)
 	switch g.intn(12, "oh") {
 	case 3, 4:
 		it.Held = true
@@ -1438,7 +1430,7 @@ func (g *G) cof(sc *scope, want string) Item {
 
 func (g *G) partial(sc *scope) []Item {
 	it := Item{K: "partial", Pre: g.pick(presR, "pp"), Ext: g.pick(extsR, "pe")}
-	it.Data = g.data(*sc, partialKeys, 3, "pd")
+	it.Data = g.noNilFor(g.data(*sc, partialKeys, 3, "pd"), *sc)
 	// what the body may read: a key every call binds to a value is a name; a key only some call binds (or binds to
 	// nil) may be unset
 	sure, maybe := boundKeys(it.Data), nilKeys(it.Data)
@@ -1446,7 +1438,7 @@ func (g *G) partial(sc *scope) []Item {
 	case 0, 1:
 		it.Held = true
 	case 2, 3:
-		it.Re = &Re{Data: g.data(*sc, partialKeys, 3, "rd")}
+		it.Re = &Re{Data: g.noNilFor(g.data(*sc, partialKeys, 3, "rd"), *sc)}
 		if sc.top && !g.textual && g.intn(2, "rl") == 0 {
 			pool := []string{"g0", "g1", "g2"}
 			if sc.depth == 0 && !sc.inLayout && !sc.inBlock {
@@ -1517,6 +1509,21 @@ func (g *G) partial(sc *scope) []Item {
 		}
 	}
 	return out
+}
+
+// noNilFor: nil is passed only for keys that are no names of the caller (whether binding a name the caller has to nil
+// hides the caller's value is not stated); other nils become a string.
+func (g *G) noNilFor(kvs []KV, sc scope) []KV {
+	for i := range kvs {
+		if !kvs[i].Nil {
+			continue
+		}
+		if len(intersect([]string{kvs[i].K}, with(with(sc.names, sc.guarded...), sc.hidden...))) > 0 || sc.opaque {
+			v := "was-nil"
+			kvs[i] = KV{K: kvs[i].K, Lit: &v}
+		}
+	}
+	return kvs
 }
 
 func nilKeysRe(re *Re) []string {
@@ -1765,9 +1772,10 @@ func boundaryCases() []Case {
 	emptyLay := Item{K: "partial", Ext: ".html", Body: []Item{}, Lay: &Lay{Ext: ".html", Body: []Item{{K: "yield"}}}}
 	onlyYield := Item{K: "partial", Ext: ".html", Body: []Item{tx("'b'")}, Lay: &Lay{Ext: ".html", Body: []Item{{K: "yield"}}}}
 	twoYields := Item{K: "partial", Ext: ".html", Body: []Item{tx("'b'"), {K: "tick"}}, Lay: &Lay{Ext: ".html", Body: []Item{{K: "yield"}, tx("|"), {K: "yield"}}}}
-	nilData := Item{K: "partial", Ext: ".html", Data: []KV{{K: "g0", Nil: true}, {K: "f0", Nil: true}},
-		Body: []Item{{K: "if", N: "g0", Body: []Item{tx("G")}}, {K: "if", N: "f0", Body: []Item{tx("F")}}, em("g1")}}
-	nilRead := Item{K: "partial", Ext: ".html", Data: []KV{{K: "g0", Nil: true}}, Body: []Item{em("g0")}}
+	// (nil for a name the caller HAS is not generated: whether that hides the caller's binding is not stated)
+	nilData := Item{K: "partial", Ext: ".html", Data: []KV{{K: "f1", Nil: true}, {K: "f0", Nil: true}, lit("g0", "x")},
+		Body: []Item{{K: "if", N: "f1", Body: []Item{tx("G")}}, {K: "if", N: "f0", Body: []Item{tx("F")}}, em("g0"), em("g1")}}
+	nilRead := Item{K: "partial", Ext: ".html", Data: []KV{{K: "f0", Nil: true}}, Body: []Item{em("f0")}}
 	silent := Item{K: "partial", Ext: ".html", Alt: true, Body: []Item{tx("'s'"), {K: "tick"}}}
 	var out []Case
 	for _, ct := range []string{"text/html", "application/javascript"} {
@@ -1784,9 +1792,6 @@ func boundaryCases() []Case {
 			other := "n1_0"
 			out = append(out, mk(ct, Item{K: "cfor", N: n, Body: []Item{tx("<N>"), em("s0")}}, Item{K: "cfor", N: other, Body: []Item{tx("<O>")}},
 				tx("1:"), Item{K: "cof", N: n}, tx("2:"), Item{K: "cof", N: other}, tx("3:"), Item{K: "cof", N: strings.TrimSpace(n) + "x", Def: true, Body: []Item{tx("dflt")}}))
-			if strings.TrimSpace(n) != n {
-				out = append(out, mk(ct, Item{K: "cfor", N: n, Body: []Item{tx("<N>")}}, tx("1:"), Item{K: "cof", N: strings.TrimSpace(n), Def: true, Body: []Item{tx("dflt")}}))
-			}
 		}
 	}
 	return out
@@ -1812,7 +1817,7 @@ func bigCase(kind int, held bool) Case {
 
 // ---- the test --------------------------------------------------------------------
 
-const rule = "A case is a tree of documents: main template, partial bodies (nesting <= 3), layouts (a layout may wrap its yield in a partial that has a layout), contentFor blocks, contentOf default blocks, blocks of a recording Go block helper. Items: literal text (HTML/JS specials), <%= %> of context strings with HTML/JS specials, of loop variables, of data keys, a tick() counter (detects double evaluation), for loops, if/else, let (partials: must not leak), partial(name, data[, layout]) (in a quarter of the cases the data map, layout entry included, is held in a variable and used by TWO calls) with extension in {.js,.html,.md,none} and data keys shadowing caller variables (g*) or fresh (f*), 0-3 contentFor names per document incl. redefinition, contentOf before/after the definition, with/without data (c*, shadowing s0), with default block, undefined name. contentType in {unset,text/html,application/javascript,text/javascript}. ORACLE (metamorphic): every composition is replaced by an oracle helper that renders the composed-in text itself with plush.Render in a child of the caller's scope extended with data and leaves a placeholder which is substituted textually, unescaped, exactly once; JSEscapeString is applied by the oracle once per partial (and layout) whose name has a non-.js non-empty extension under a JavaScript content type; layouts get the result as yield; an undefined contentOf without default must fail. For data-free cases additionally the TEXTUAL inline: the partial/layout/block source pasted in place of the tag must render the same. Whole outputs byte for byte, errors as error/no-error, plus the list of strings the block helper received. (E) config matrix ct x ext x layout mode x layout ext x 9 bodies x 4 data maps; (E) all sequences of 12 content operations up to length 3 (thorough 4) x 3 placements; (R) random trees. Not asserted (never generated): what a layout sees of the partial's data or contentFor names, contentFor inside blocks/loops, scope of a stored block other than names nobody rebinds, visibility of the data map in a contentOf default block. Non-trivial = at least one composition was executed and rendered non-empty text, or the case must fail. Distinct by case."
+const rule = "A case is a tree of documents: main template, partial bodies (nesting <= 3), layouts (a layout may wrap its yield in a partial that has a layout), contentFor blocks, contentOf default blocks, blocks of recording Go block helpers. Items: literal text (HTML/JS specials), <%= %> of context strings with HTML/JS specials, of loop variables, of data keys, a tick() counter (detects double / missing / cached evaluation), for loops, if/else, let (partials: must not leak; in the main document also of the names stored blocks and layouts read, between definition and use), partial(name, data[, layout]) with name = [directory part incl. dots, upper case, './', '_'] p<N> [extension in {.js,.html,.md,none,.js.html,.html.js}] and data keys shadowing caller variables (g*) or fresh (f*), values strings / ints / caller variables / nil (nil only for names the caller lacks); in a quarter of the cases the data map, layout entry included, is HELD in a variable and used by TWO calls; in a quarter the same partial NAME is called a second time with ANOTHER data map, optionally after a let of the caller in between (keys not bound by every call are read guarded); 0-3 contentFor names per document (not only identifiers: upper case, dot, spaces, colon, the empty name) incl. redefinition, contentFor also in an output tag, contentOf before/after the definition, with/without data (c*, shadowing s0), data held in a variable and used by two calls, with default block, undefined name; after a contentOf with data the CALLER reads a data key guarded (must be unset); block helpers that render their block once / twice / never / in a child scope with data (BlockWith) / take an argument / are a method of a context value; partial, contentOf and block helper calls also in SILENT tags (evaluated once, nothing inserted); empty documents and blocks. contentType in {unset,text/html,application/javascript,text/javascript, the same with '; charset=..' parameters, text/plain}. ORACLE (metamorphic): every composition is replaced by an oracle helper that renders the composed-in text itself with plush.Render in a child of the caller's scope extended with data and leaves a placeholder which is substituted textually, unescaped, exactly once; JSEscapeString is applied by the oracle once per partial (and layout) whose name has a last extension other than .js / none under a JavaScript media type; layouts get the result as yield; an undefined contentOf without default must fail. For data-free cases additionally the TEXTUAL inline: the partial/layout/block source pasted in place of the tag must render the same. Whole outputs byte for byte, errors as error/no-error, plus the list of strings the block helpers received. (E) config matrix ct x ext x layout mode x layout ext x 11 bodies (incl. a call site in a loop fed from the loop variable, a name called twice with different data) x 4 data maps; (E) name spellings x content types with parameters x layout spellings; (E) block helper variants x tag opener x bodies x places; (E) boundaries (empty bodies, yield-only / two-yield layouts, nil data, odd content names) and one call site executed 1100 times; (E) all sequences of 16 content operations up to length 3 (thorough 4) x 3 placements; (R) random trees, random data-free trees with textual inlining, random trees rendered TWICE with plush.CacheEnabled on (second render on the cached templates). Not asserted (never generated): what a layout sees of the partial's data or contentFor names, contentFor inside blocks/loops, scope of a stored block other than names nobody rebinds below the main document, visibility of the data map in a contentOf default block, let inside blocks, nil bound to a name the caller has, names that differ only by surrounding spaces. Non-trivial = at least one composition was executed and rendered non-empty text, or the case must fail. Distinct by case."
 
 func setup(t *testing.T) *vk.Run {
 	r := vk.Start(t, "C17", rule,
